@@ -131,6 +131,25 @@ Wave 3 (loops; groups `line` `fold` `text` -> Gen/BodiesLine.lean, BodiesFold.le
                opaque message), otherwise ELSE; an exception no handler names propagates.  `[E for v in xs]`
                whose E can raise is `mapM` (the first exception ends it).  `s.split(',')`.
                A function that returns a list on one path and an element on another returns a `PyResult`.
+               `if c:` on an optional object is a test for None only when the class's `__bool__` is `return True` in the
+               source and no other class of that file defines `__bool__` / `__len__` (NEVER_FALSE, looked up on every run).
+  wave 5 more  `[E for a in XS for b in YS(a)]` (the concatenation of the inner lists over XS); a call of a translated
+               method that takes an object used only through declared attributes (`Object`): the callee's parameters
+               `<arg>.<ATTR>` are the caller's `<actual>.<ATTR>`; None handed where the callee takes the object is
+               TypeError; `getattr(x, "tzinfo", None) is None` on a date / datetime object.
+               FIELDS: a method of a class with self_type 'Fields' that assigns / appends to declared attributes of self
+               is a function from their values before to the tuple of their values after (bare `return` and the end of
+               the function return it); `self.m(..)` of such a method rebinds the attributes it writes.
+               `E(x) if x is not None else None`; handlers for icalendar's ValueError subclasses by name.
+               `for name, value in <list of pairs>`; `Cls()` for a declared ('listctor', file, type) class that is a plain
+               `class Cls(list)` without constructor / append / iteration methods is the empty list.
+               `A and B and ..` where an operand is `x is not None` / `isinstance(x, date | datetime)` on an optional
+               date / timedelta variable: the operands after it see the object; operands that can raise are placed by
+               nested `if`s.  A translated method that returns a tuple display: `m()[k]` and `a, b, c = m()`.
+               `d1 - d2` of date / datetime objects is an external partial operation ('datetime.__sub__').
+  parameters   the order of the generated parameters follows their first use in the source: apply the definitions BY NAME
+               (`f (last_ack := ..) (snooze_until := ..)`), never positionally - two parameters of one type could
+               otherwise change places together with the source and no proof or test would notice.
   fragments    a target may name a FRAGMENT: the first `for` loop of the function together with the
                constant initialisations directly in front of it; its free variables are parameters and
                its result is the tuple of the variables named in TARGETS.
